@@ -68,10 +68,12 @@ static void* gp_arena_alloc(const GPAllocator* allocator, const size_t _size)
     void* block = head->position;
     if ((uint8_t*)block + size > (uint8_t*)(head + 1) + arena->head->capacity)
     { // out of memory, create new arena
-        const size_t new_cap = gp_round_to_aligned(
-            arena->growth_coefficient * arena->head->capacity, arena->alignment);
-        GPArenaNode* new_node = gp_mem_alloc(gp_heap,
-            sizeof(GPArenaNode) + gp_min(gp_max(new_cap, size), arena->max_size));
+        // Growth is limited by max_size, but the node must fit the requested
+        // block. The recorded capacity is what was actually allocated.
+        const size_t new_cap = gp_max(size, gp_min(gp_round_to_aligned(
+            arena->growth_coefficient * arena->head->capacity, arena->alignment),
+            arena->max_size));
+        GPArenaNode* new_node = gp_mem_alloc(gp_heap, sizeof(GPArenaNode) + new_cap);
         new_node->tail     = head;
         new_node->capacity = new_cap;
 
